@@ -302,6 +302,49 @@ theorem centrifuged_plain (ws : List Str) (cs : List CodeLine) :
       rw [hml, centrifuged_snoc]
       simp [plainLines, CodeLine.addHints]
 
+theorem trimBlank_id (ls : List Str) (hf : ∀ l, ls.head? = some l → blankPy l = false)
+    (hl : ∀ l, ls.getLast? = some l → blankPy l = false) : trimBlank ls = ls := by
+  have e1 : ls.dropWhile blankPy = ls := by
+    cases ls with
+    | nil => rfl
+    | cons a t => simp [List.dropWhile_cons, hf a rfl]
+  have e2 : ls.reverse.dropWhile blankPy = ls.reverse := by
+    cases hr : ls.reverse with
+    | nil => rfl
+    | cons a t =>
+      have : ls.getLast? = some a := by rw [← List.head?_reverse, hr]; rfl
+      simp [List.dropWhile_cons, hl a this]
+  simp [trimBlank, e1, e2]
+
+theorem blankPy_false_of_mem {l : Str} {x : Char} (hx : x ∈ l) (hs : isSpacePy x = false) : blankPy l = false := by
+  simp only [blankPy, List.all_eq_false]
+  exact ⟨x, hx, by simp [hs]⟩
+
+theorem renderCode_code_sub (c : CodeLine) : ∀ x ∈ c.code, x ∈ renderCode c := by
+  intro x hx
+  by_cases h : c.hints = []
+  · rw [renderCode_plain c h]; exact hx
+  · rw [renderCode_hinted c h]; simp [hx]
+
+theorem trimBlank_render (d : Decorated) (hy : Hyg d) :
+    trimBlank ((codeLines d).map renderCode) = (codeLines d).map renderCode := by
+  apply trimBlank_id
+  · intro l hl
+    simp only [List.head?_map, Option.map_eq_some_iff] at hl
+    obtain ⟨c, hc, rfl⟩ := hl
+    obtain ⟨x, t, hxt, hsp⟩ := hy.first c hc
+    exact blankPy_false_of_mem (renderCode_code_sub c x (by simp [hxt])) hsp
+  · intro l hl
+    simp only [List.getLast?_map, Option.map_eq_some_iff] at hl
+    obtain ⟨c, hc, rfl⟩ := hl
+    have hne := hy.last c hc
+    obtain ⟨x, hx⟩ : ∃ x, c.code.getLast? = some x := by
+      cases h : c.code.getLast? with
+      | none => simp at h; exact absurd h hne
+      | some x => exact ⟨x, rfl⟩
+    exact blankPy_false_of_mem (renderCode_code_sub c x (List.mem_of_getLast? hx))
+      ((hy.ok c (List.mem_of_getLast? hc)).notrail x hx)
+
 /-- **`centrifugate_hints` on a decorated program**: the isolated hints disappear, their labels
 (sorted, without repetition) are opened at the end of the first code line and closed at the end of
 the last one. -/
@@ -314,7 +357,7 @@ theorem centrifugate_decorate (d : Decorated) (hy : Hyg d) :
     splitNL_joinNL _ (by simpa using hdne) (renderLine_noNL d hy.ok hy.whole)
   have hscan := scanIsolated_decorated d hy.ok hy.whole
   unfold centrifugate
-  simp only [hsplit, hscan]
+  simp only [hsplit, hscan, trimBlank_render d hy]
   by_cases hw : wholeLabels d = []
   · simp only [hw, if_true, sortDedup_nil, centrifuged_nil_render]
   · simp only [hw, if_false]
